@@ -39,7 +39,7 @@ CLAIM = dict(
     design_ref="§5 C25",
 )
 
-NAMES = {0: "a", 1: "b", 2: "c"}
+NAMES = {0: "a", 1: "b", 2: "c", 3: "d", 4: "e", 5: "f"}
 OPS = [("get", 0), ("get", 1), ("select", (0, 1)), ("select", (1, 0)), ("select", (2, 0)), ("put", 0), ("put", 1), ("delete", 0),
        ("delete", 1)]
 
@@ -174,12 +174,20 @@ def run(ctx, res):
             rng = ctx.rng("rand", kind)
             for _ in range(ctx.pick(300, 3000)):
                 hist.append(concretise([rng.choice(OPS) for _ in range(rng.randrange(5, 14))]))
-            for size in (0, 1, 2, -1):
-                for ar in (True, False):
-                    reqs = [[Atom("tplcache"), ar, size, [[k, v] for k, v in initial], enc_ops(h)] for h in hist]
+            # second family: more names than cache slots, so that recency ORDER (not just membership) decides what is evicted
+            wide_initial = [(k, 10) for k in range(6)]
+            wide_ops = ([("get", k) for k in range(6)] * 3 + [("select", (a, b)) for a in range(6) for b in range(6) if a != b][::5]
+                        + [("put", k) for k in range(6)] + [("delete", k) for k in (0, 3)])
+            wide = [concretise([rng.choice(wide_ops) for _ in range(rng.randrange(6, 22))])
+                    for _ in range(ctx.pick(250, 2500) if kind != "fs" else ctx.pick(40, 400))]
+            plans = [(size, ar, initial, hist) for size in (0, 1, 2, -1) for ar in (True, False)]
+            plans += [(size, ar, wide_initial, wide) for size in (3, 4, 5) for ar in (True, False)]
+            for size, ar, initial_, hist_ in plans:
+                for _once in (0,):
+                    reqs = [[Atom("tplcache"), ar, size, [[k, v] for k, v in initial_], enc_ops(h)] for h in hist_]
                     reps = core.driver_batch(reqs)
-                    for h, rep in zip(hist, reps):
-                        hz = Harness(jinja2, kind, initial, size, ar, tmp)
+                    for h, rep in zip(hist_, reps):
+                        hz = Harness(jinja2, kind, initial_, size, ar, tmp)
                         total += 1
                         distinct.add((kind, size, ar, tuple(map(str, h))))
                         for i, (op, want) in enumerate(zip(h, canon(rep[1]))):
@@ -205,7 +213,8 @@ def run(ctx, res):
         "rule": (f"every history of length <= {maxlen['dict']} (DictLoader) / <= {maxlen['function']} (FunctionLoader with up-to-date "
                  "callable, FileSystemLoader with forced mtime changes) over 9 operations (get a/b, select in three orders incl. a "
                  "missing name, modify a/b, delete a/b) ending in an observation, plus random histories of 5-13 operations, x "
-                 "cache sizes 0, 1, 2, unbounded x auto_reload on/off; after every step result, cache population and number of "
+                 "cache sizes 0, 1, 2, unbounded x auto_reload on/off; plus random histories of 6-21 operations over SIX names x cache sizes "
+                 "3, 4, 5 (more names than slots: the recency order decides the eviction); after every step result, cache population and number of "
                  "loader calls must equal the Lean model's"),
         "samples": samples,
         "exhaustive": True,
